@@ -515,6 +515,7 @@ func aliasesOf(a *ssa.Alloc) []ssa.Value {
 // defsOf lists the instructions that may define the content of alloc a:
 // stores to it, and calls receiving its address (directly or through a spill).
 func defsOf(a *ssa.Alloc) (defs []ssa.Instruction, fieldStores bool) {
+	var viewDefs []ssa.CallInstruction
 	for _, al := range aliasesOf(a) {
 		refs := al.Referrers()
 		if refs == nil {
@@ -532,6 +533,33 @@ func defsOf(a *ssa.Alloc) (defs []ssa.Instruction, fieldStores bool) {
 				}
 			case *ssa.FieldAddr, *ssa.IndexAddr:
 				fieldStores = true
+			case *ssa.Slice:
+				// a view of the local array handed to a call that may fill it
+				if rr := r.Referrers(); rr != nil {
+					for _, u := range *rr {
+						if c, ok := u.(ssa.CallInstruction); ok && !readOnlyCall(c) {
+							if b, isB := c.Common().Value.(*ssa.Builtin); isB && (b.Name() == "len" || b.Name() == "cap") {
+								continue
+							}
+							if b, isB := c.Common().Value.(*ssa.Builtin); isB && b.Name() == "copy" && len(c.Common().Args) == 2 && c.Common().Args[0] != ssa.Value(r) {
+								continue // copy source only
+							}
+							if b, isB := c.Common().Value.(*ssa.Builtin); isB && b.Name() == "append" && len(c.Common().Args) >= 2 && c.Common().Args[0] != ssa.Value(r) {
+								continue // appended from, not to
+							}
+							viewDefs = append(viewDefs, c)
+						}
+					}
+				}
+			}
+		}
+	}
+	// view fillers count as definitions only for arrays no other rule describes
+	// (buffers built by make/append keep their existing treatment)
+	if len(defs) == 0 && !fieldStores {
+		for _, c := range viewDefs {
+			if strings.HasSuffix(calleeName(c.Common()), "(hash.Hash).Sum") {
+				defs = append(defs, c)
 			}
 		}
 	}
@@ -779,6 +807,14 @@ func (s *Sym) load(v *ssa.UnOp) *Term {
 	case *ssa.IndexAddr:
 		return T("index", "", s.Of(a.X), s.Of(a.Index))
 	}
+	// *p for a pointer parameter whose designated object the caller described
+	if prm := spilledParam(v.X); prm != nil {
+		for o := s; o != nil; o = o.outer {
+			if t, ok := o.pointees[prm]; ok && paramShallowReadOnly(prm.Parent(), paramIndex(prm), 0) {
+				return t
+			}
+		}
+	}
 	return T("load", "", s.Of(v.X))
 }
 
@@ -816,6 +852,12 @@ func (s *Sym) loadAlloc(a *ssa.Alloc, at ssa.Instruction) *Term {
 	case *ssa.Store:
 		return s.Of(d.Val)
 	case ssa.CallInstruction:
+		// h.Sum(buf[:0]) on a fresh local array: the array holds the digest
+		if c, ok := d.(*ssa.Call); ok && strings.HasSuffix(calleeName(c.Common()), "(hash.Hash).Sum") && len(c.Call.Args) == 1 {
+			if sl, ok := c.Call.Args[0].(*ssa.Slice); ok && sl.X == ssa.Value(a) && sl.High != nil && isZeroConst(sl.High) {
+				return s.hashSumCore(c)
+			}
+		}
 		// value written by the call through the pointer
 		idx := -1
 		for i, arg := range d.Common().Args {
@@ -1564,7 +1606,12 @@ func (s *Sym) oidValue(v ssa.Value) *Term {
 
 // hashSum: h.Sum(b) for a hash.Hash h obtained from a constructor, with the
 // Write calls that dominate it.
-func (s *Sym) hashSum(v *ssa.Call) *Term {
+func (s *Sym) hashSum(v *ssa.Call) *Term { return s.hashSumX(v, false) }
+
+// hashSumCore: the digest itself (the prefix argument of Sum is ignored).
+func (s *Sym) hashSumCore(v *ssa.Call) *Term { return s.hashSumX(v, true) }
+
+func (s *Sym) hashSumX(v *ssa.Call, core bool) *Term {
 	h := v.Call.Value
 	ctor := s.Of(h)
 	alg := ctor.String()
@@ -1585,11 +1632,14 @@ func (s *Sym) hashSum(v *ssa.Call) *Term {
 			parts = append(parts, T("unknown", "hash method "+c.Common().Method.Name()))
 		}
 	}
-	pre := s.Of(v.Call.Args[0])
 	ht := T("hash", alg, catTerms(parts...))
 	if len(parts) == 0 {
 		ht = T("hash", alg, T("cat", ""))
 	}
+	if core {
+		return ht
+	}
+	pre := s.Of(v.Call.Args[0])
 	if pre.Op == "const" && pre.Name == "nil" {
 		return ht
 	}
